@@ -115,8 +115,12 @@ def cast_rejects_exactly(ctx, F, rule):
             sides = (f[2], f[3])
             if f[1] in ("Lt", "Gt") and any(x[0] == "cs" and "BASE_SIZE" in str(x[1]) for x in sides) and any(x[0] in ("sizeof", "c") for x in sides):
                 return True
-            return f[1] == "Ne" and all(x[0] == "sizeofval" for x in sides) and any(x[1] == arg(1) for x in sides)
+            return f[1] in ("Ne", "Lt", "Gt") and all(x[0] == "sizeofval" for x in sides) and any(x[1] == arg(1) for x in sides)
         ok = any(allowed(f) for f in fs)
+        from .. import exact as EX
+        if not ok and any(EX.opaque_discr(f) for f in fs):
+            ctx.note("%s cast: a panic edge is reached under the discriminant of a joined value only - not decided" % rule)
+            continue
         if not ok:
             bad.append("%s %s under %s" % (s.kind, s.what, [G.show(f)[:80] for f in fs][:4]))
     return ctx.check(not bad, rule, "cast:exact-rejection", "cast::<T>() diverges only for BASE_SIZE < header size, inside T::dst_len, or when the typed view's size "
